@@ -263,7 +263,29 @@ fn run_child(bin: &str, turns: u64, seed: u64, mode: &str, stack: usize) -> Chil
         c.args(["child-longgame", &turns.to_string(), &seed.to_string(), mode, &stack.to_string()]);
         c
     };
-    let out = cmd.stdin(Stdio::null()).output();
+    // generous wall-clock watchdog per child: its firing is *inconclusive*, never a verdict
+    let limit = std::time::Duration::from_secs(std::env::var("AVM_CHILD_TIMEOUT_S").ok().and_then(|s| s.parse().ok()).unwrap_or(600));
+    let started = std::time::Instant::now();
+    let child = cmd.stdin(Stdio::null()).stdout(Stdio::piped()).stderr(Stdio::piped()).spawn();
+    let mut child = match child {
+        Ok(c) => c,
+        Err(e) => return ChildOut { status: format!("spawn failed: {}", e), signal: None, code: None, json: None, err: Some(e.to_string()), stderr_tail: String::new(), overflow_msg: false },
+    };
+    loop {
+        match child.try_wait() {
+            Ok(Some(_)) => break,
+            Ok(None) => {
+                if started.elapsed() > limit {
+                    let _ = child.kill();
+                    let _ = child.wait();
+                    return ChildOut { status: format!("watchdog: killed after {} s", limit.as_secs()), signal: None, code: None, json: None, err: Some("watchdog".into()), stderr_tail: String::new(), overflow_msg: false };
+                }
+                std::thread::sleep(std::time::Duration::from_millis(50));
+            }
+            Err(e) => return ChildOut { status: format!("wait failed: {}", e), signal: None, code: None, json: None, err: Some(e.to_string()), stderr_tail: String::new(), overflow_msg: false },
+        }
+    }
+    let out = child.wait_with_output();
     match out {
         Err(e) => ChildOut { status: format!("spawn failed: {}", e), signal: None, code: None, json: None, err: Some(e.to_string()), stderr_tail: String::new(), overflow_msg: false },
         Ok(o) => {
